@@ -3,7 +3,8 @@
   for, as a list of drawn segments (same vocabulary as Spec/PathInterp).
   * rect §9.2: start at (x+rx, y), clockwise; corner arcs (sweep = 1, small) when the resolved
     corner radius is positive.  Radii resolution as picosvg's dataclass sees it (0 = unspecified):
-    rx := ry if rx = 0, ry := rx if ry = 0, then clamped to half the width / height.
+    rx := ry if rx = 0, ry := rx if ry = 0, then clamped to half the width / height.  `rectOutlineAttr` is the same
+    paragraph at the level of the attributes, where "not given" and "given as zero" differ.
   * ellipse/circle §9.3-9.4: start at (cx+rx, cy), clockwise (sweep = 1), as two half arcs.
   * line §9.5.
 -/
@@ -40,6 +41,21 @@ def rectOutline (x y w h rx0 ry0 : α) : List (Seg α) :=
     -- square corners: with rx = 0 the points p1..p7 collapse pairwise onto the four corners
     [Seg.move p0, Seg.line p0 p1, Seg.line p1 ⟨p1.x, p3.y⟩, Seg.line ⟨p1.x, p3.y⟩ ⟨p5.x, p3.y⟩,
      Seg.line ⟨p5.x, p3.y⟩ ⟨p5.x, p7.y⟩, Seg.close ⟨p5.x, p7.y⟩ p0]
+
+/-- SVG 1.1 §9.2 at the level of the attributes (`none` = not given or blank): a lone radius is copied to the other one,
+    two given radii are taken as they are, -/
+def givenRadii (rx? ry? : Option α) : α × α :=
+  match rx?, ry? with
+  | some a, some b => (a, b)
+  | some a, none => (a, a)
+  | none, some b => (b, b)
+  | none, none => (0, 0)
+
+/-- and the corners are square as soon as one of the two is zero ("if rx or ry has a value of zero, no rounding");
+    otherwise the radii are clamped and the corners rounded as in `rectOutline`. -/
+def rectOutlineAttr (x y w h : α) (rx? ry? : Option α) : List (Seg α) :=
+  let (a, b) := givenRadii rx? ry?
+  if a == 0 || b == 0 then rectOutline x y w h 0 0 else rectOutline x y w h a b
 
 def ellipseOutline (rx ry cx cy : α) : List (Seg α) :=
   let a : Pt α := ⟨cx + rx, cy⟩
